@@ -44,6 +44,7 @@ class Impl:
                 for c in outer.step_prog:
                     outer.cmd(c, nested=True)
 
+        self.M = M
         self.model = M(seed=0)
         self.sim = ABMSimulator() if kind == "abm" else DEVSimulator()
         self.progs, self.step_prog = {}, []
@@ -125,6 +126,13 @@ class Impl:
             self.sim.setup(self.model)
             self.trace.append(("setup",))
             return "ok"
+        if k == "reset":
+            # the visualisation's reset flow: same simulator object, fresh model, setup again
+            self.sim.reset()
+            self.model = self.M(seed=0)
+            self.events, self.keep, self.log = [], {}, []
+            self.trace.append(("reset",))
+            return "ok"
         if k in ("abs", "rel", "cancel", "drop"):
             return self.cmd((k, *map(int, w[1:])))
         if k == "until":
@@ -198,6 +206,13 @@ def gen_scenario(R, kind=None, n_ops=None, run_weight=1.0):
         times = [0, 512, 1024, 1536, 2048, 3072, 4096, 100, 1025]
         rel_times = [0, 512, 1024, 2048, -512, 1, 0]
         horizons = [0, 512, 1024, 1536, 100]
+    base = 0
+    if kind == "devs" and R.random() < 0.25:
+        # large clock values (2^31 time units): all arithmetic stays exact in binary64, but any tolerance-based
+        # comparison (isclose, rounding to n digits) in the code would show
+        base = 2 ** 41
+        times = [base + t for t in times] + [base + 1, base + 1023]
+        horizons = horizons + [1, 1023]
     nact = R.randrange(1, 6)
     meta = {"float_ticks": R.random() < 0.3}
     lines = [f"scenario {kind}"]
@@ -224,13 +239,17 @@ def gen_scenario(R, kind=None, n_ops=None, run_weight=1.0):
         elif k < 0.60:
             l = f"drop {R.randrange(0, 10)}"
         elif k < 0.60 + rw * 0.45:
-            l = f"until {impl.now() + R.choice(horizons)}"
+            l = f"until {max(impl.now(), base) + R.choice(horizons)}"
         elif k < 0.60 + rw * 0.65:
             l = f"for {R.choice(horizons)}"
         elif k < 0.60 + rw * 0.9:
             l = "next"
         else:
             l = f"peek {R.randrange(1, 6)}"
+        if base == 0 and R.random() < 0.04:
+            for l2 in ("reset", "setup"):
+                impl.line(l2.split())
+                lines.append(l2)
         impl.line(l.split())
         lines.append(l)
     return core.Scenario(lines, meta)
@@ -253,7 +272,10 @@ def oracle(sc, obs, abm_clauses=True):
     run = None
     for ev in tr:
         k = ev[0]
-        if k == "setup":
+        if k == "reset":
+            pending, step_pending, executed, dead = {}, None, set(), set()
+            drops, last_clock, run = 0, None, None
+        elif k == "setup":
             if kind == "abm":
                 step_pending = (UNIT, 1, order)
                 order += 1
